@@ -207,7 +207,7 @@ def sample_models(rng, n=6):
             out.append(m)
         try:
             from cobra.io import read_sbml_model
-            out.append(read_sbml_model("/repo/tests/data/mini_fbc2.xml"))
+            out.append(read_sbml_model(str(common.REPO / "tests/data/mini_fbc2.xml")))
         except Exception:
             pass
     return out
